@@ -105,11 +105,11 @@ def regenerate(ctx):
     import os
 
     p = subprocess.run(
-        [sys.executable, str(core.VERIF / "gen" / "all.py"), "--only", "ff_tables,topology,titration"],
+        [sys.executable, str(core.VERIF / "gen" / "all.py"), "--only", "ff_tables,topology,titration,states"],
         capture_output=True, text=True, env={**os.environ, "VERIF_REPO": str(core.REPO)},
     )
     if p.returncode != 0:
-        ctx.broke("generator-broken", "gen/all.py --only ff_tables,topology,titration (tables from /repo)", (p.stdout + p.stderr)[-2500:])
+        ctx.broke("generator-broken", "gen/all.py --only ff_tables,topology,titration,states (tables from /repo)", (p.stdout + p.stderr)[-2500:])
         return False
     return True
 
